@@ -1,6 +1,7 @@
 import Zog.Props.FactsOK
 import Zog.Laws
 import Zog.Coerce
+import Zog.Agree
 
 /-!
 # C13 — Parse and Validate agree on fully populated values
@@ -56,5 +57,81 @@ theorem both_modes_refine (env : Env) (s : Schema) (tag : Option String) (v : Va
     Engine.run env Gen.facts .parse s tag v d = Spec.run env .parse s tag v d ∧
     Engine.run env Gen.facts .validate s tag v d = Spec.run env .validate s tag v d :=
   ⟨engine_is_spec _ _ _ _ _ _, engine_is_spec _ _ _ _ _ _⟩
+
+/-! ## the whole tree -/
+
+/-- **C13 at every depth** (reference semantics).  If `v` is the map presentation of the fully
+    populated value `d` (`Spec.Pres`: every leaf present, non-zero and coerced to itself, every slice
+    non-empty with element-wise presentation, every pointer non-nil, every struct a non-empty map
+    whose destination has exactly the schema's fields), then parsing `v` into the fresh destination
+    `d0` and validating `d` in place return the same destination, the same issues in the same order
+    and the same callback log — Default, Catch, tests, struct/slice tests and PostTransforms included. -/
+theorem parse_validate_agree_spec (env : Env) (s : Schema) (hw : s.WF) (v v' : Val) (d d0 : DVal)
+    (h : Pres s v d d0) :
+    Spec.run env .parse s none v d0 = Spec.run env .validate s none v' d :=
+  agree env s hw v v' d d0 [] {} h
+
+/-- the same for the mechanism model under the regenerated facts -/
+theorem parse_validate_agree (env : Env) (s : Schema) (hw : s.WF) (v v' : Val) (d d0 : DVal)
+    (h : Pres s v d d0) :
+    Engine.run env Gen.facts .parse s none v d0 = Engine.run env Gen.facts .validate s none v' d := by
+  rw [engine_is_spec, engine_is_spec]
+  exact parse_validate_agree_spec env s hw v v' d d0 h
+
+/-- in particular the issue maps handed to the caller are equal -/
+theorem parse_validate_same_issue_map (env : Env) (s : Schema) (hw : s.WF) (v v' : Val) (d d0 : DVal)
+    (h : Pres s v d d0) :
+    toIssueMap (Engine.run env Gen.facts .parse s none v d0).2.sink =
+    toIssueMap (Engine.run env Gen.facts .validate s none v' d).2.sink := by
+  rw [parse_validate_agree env s hw v v' d d0 h]
+
+/-- leaves: an input of the node's own type, non-blank and non-zero, presents itself under the
+    default coercers (`coerce_own_type`) -/
+theorem pres_prim_own (p : Prim) (v : Val) (x d0 : DVal) (hp : isParseZero v = false) (hz : isZeroD x = false)
+    (hc : p.coerce v = some x) : Pres (.prim p) v x d0 := by
+  simp only [Pres]; exact ⟨hp, hz, hc⟩
+
+/-! non-vacuity: a three-field struct (string leaf with a failing test and a PostTransform, slice of
+    ints, pointer to bool) satisfies the hypotheses, and the two runs do report an issue -/
+section witness
+def strP : Prim := { kind := .str, coerce := fun v => match v with | .str s => some (.str s) | _ => none,
+                     tests := [{ id := 1, code := "min", pred := fun _ => false }],
+                     posts := [{ id := 2, run := fun x => (x, none) }] }
+def intP : Prim := { kind := .num .int, coerce := fun v => match v with | .int _ n => some (.int .int n) | _ => none }
+def boolP : Prim := { kind := .bool, coerce := fun v => match v with | .bool b => some (.bool b) | _ => none }
+def sliceM : SliceMods := { coerce := fun v => match v with | .list xs => some xs | _ => none, zeroElem := .int .int 0 }
+def wS : Schema := .struct
+  (.cons "name" ⟨"Name", []⟩ (.prim strP)
+    (.cons "tags" ⟨"Tags", []⟩ (.slice (.prim intP) sliceM)
+      (.cons "on" ⟨"On", []⟩ (.ptr (.prim boolP) (.bool false) none) .nil))) [] []
+def wV : Val := .obj [("name", .str "x"), ("tags", .list [.int .int 3, .int .int 4]), ("on", .bool true)]
+def wD : DVal := .struct [("Name", .str "x"), ("Tags", .slice [.int .int 3, .int .int 4]), ("On", .ptr (some (.bool true)))]
+def wD0 : DVal := .struct [("Name", .str ""), ("Tags", .slice []), ("On", .ptr none)]
+
+example : Pres wS wV wD wD0 := by
+  simp only [wS, Pres]
+  refine ⟨_, _, _, rfl, by simp, rfl, rfl, by decide, by decide, by decide, ?_⟩
+  simp only [PresFields, Pres, and_true]
+  refine ⟨⟨by decide, by decide, rfl⟩, ⟨by decide, [.int .int 3, .int .int 4], [.int .int 3, .int .int 4], rfl, rfl, by simp, rfl, ?_⟩,
+    ⟨by decide, .bool true, rfl, by decide, by decide, rfl⟩⟩
+  intro p hp
+  simp only [List.zip_cons_cons, List.zip_nil_right, List.mem_cons, List.not_mem_nil, or_false] at hp
+  rcases hp with rfl | rfl <;> exact ⟨by decide, by decide, rfl⟩
+
+example : wS.WF := by
+  simp only [wS, Schema.WF, Fields.WF, Fields.keys, and_true, true_and]
+  refine ⟨by decide, ?_⟩
+  intro a b ka fma sa kb fmb sb ha hb hab
+  simp only [Fields.find] at ha hb
+  by_cases a1 : ("name" == a) = true <;> by_cases a2 : ("tags" == a) = true <;> by_cases a3 : ("on" == a) = true <;>
+  by_cases b1 : ("name" == b) = true <;> by_cases b2 : ("tags" == b) = true <;> by_cases b3 : ("on" == b) = true <;>
+  simp only [a1, a2, a3, b1, b2, b3, ↓reduceIte, Bool.false_eq_true, Option.some.injEq, Prod.mk.injEq, reduceCtorEq] at ha hb <;>
+  (try (obtain ⟨_, rfl, _⟩ := ha; obtain ⟨_, rfl, _⟩ := hb)) <;>
+  first
+    | decide
+    | (exfalso; apply hab; have e1 := beq_iff_eq.mp ‹_›; simp_all)
+
+example : (Spec.run ⟨fun _ _ _ => "m", fun _ => []⟩ .validate wS none .nil wD).2.sink.length = 1 := by decide
+end witness
 
 end Zog.Props.C13
